@@ -98,6 +98,7 @@ type AV struct {
 	Tup  []AV    // KTuple
 	Flds map[string]AV // KStruct snapshot: path -> value
 	Fn   *ssa.Function // KFunc
+	Fns  []*ssa.Function // KFunc: one of these (an element of a table of functions); Fn == nil
 	Bind []AV
 	Src  *cellKey // where a scalar was loaded from (for refinement), nil if none
 	Expr string   // canonical pure expression over versioned strong cells this value was computed from ("" = none)
